@@ -1,13 +1,15 @@
 #!/bin/bash
-# usage: seedtest.sh <diff> <property-id> [tier]   — apply a seeded change to /repo, run the check, undo.
+# usage: seedtest.sh <diff> <property-id> [tier]
+# Applies a seeded change to a scratch worktree of /repo's HEAD (never to /repo itself), runs the check against
+# that tree (VF_REPO) with evidence/replays redirected (VF_OUT), removes the worktree.
 D=$(readlink -f "$1"); P=$2; T=${3:-quick}
-cd /repo || exit 9
-if ! git diff --quiet; then echo "/repo has uncommitted changes"; exit 9; fi
-git apply "$D" || { echo "patch does not apply"; exit 9; }
-cd /verif && ./check $P --tier $T > /tmp/seedtest_$P.log 2>&1; rc=$?
-git -C /repo checkout -- . 
-grep -E "VIOLATION|KNOWN-FINDING|HARNESS-ERROR|CEX|\?\?\?" /tmp/seedtest_$P.log | head -12
-echo "== $(basename $D) on $P: exit=$rc"
-# evidence files are rewritten by the run on the mutated tree: restore the committed ones
-git -C /verif checkout -- evidence 2>/dev/null
-exit 0
+TAG=$(basename $(dirname $D))-$(basename $D .diff)-$P
+WT=/tmp/seedt/$TAG; OUT=/tmp/seedt/out-$TAG
+mkdir -p /tmp/seedt; rm -rf $WT $OUT; git -C /repo worktree prune
+git -C /repo worktree add -q --detach $WT HEAD || exit 9
+git -C $WT apply "$D" || { echo "patch does not apply"; git -C /repo worktree remove --force $WT; exit 9; }
+cd /verif && VF_REPO=$WT VF_OUT=$OUT ./check $P --tier $T > /tmp/seedt/$TAG.log 2>&1; rc=$?
+git -C /repo worktree remove --force $WT
+grep -E "VIOLATION|KNOWN-FINDING|HARNESS-ERROR" /tmp/seedt/$TAG.log | cut -c1-220 | head -6
+echo "== $TAG: exit=$rc"
+rm -rf $OUT
